@@ -84,15 +84,28 @@ func TestVerifC32(t *testing.T) {
 				return
 			}
 			// source snapshots
+			bigTree := func() *simfs.Node {
+				// more than 100 packs worth of fresh data per snapshot, so that copy's batches can split
+				root := w.newDir("src")
+				for i := 0; i < 18; i++ {
+					root.Add(w.newFile(fmt.Sprintf("big%d", i), 100<<10, 0))
+				}
+				return root
+			}
 			tree := w.genTree(12)
 			if big {
-				tree = w.genTree(14)
+				tree = bigTree()
+				if nSnaps < 2 {
+					nSnaps = 2
+				}
 			}
 			for i := 0; i < nSnaps; i++ {
 				if !w.backupOK(tree, BackupOptions{}, fmt.Sprintf("source backup %d", i)) {
 					return
 				}
-				if tp.Choose(3) == 0 {
+				if big {
+					tree = bigTree()
+				} else if tp.Choose(3) == 0 {
 					tree = w.genTree(12)
 				} else {
 					tree = w.mutateTree(tree)
@@ -183,7 +196,11 @@ func TestVerifC32(t *testing.T) {
 				if sweep {
 					f = fault{Kind: "crash", At: k}
 				} else {
-					switch tp.Choose(4) {
+					c := tp.Choose(4)
+					if big && tp.Choose(2) == 0 {
+						c = 2
+					}
+					switch c {
 					case 0:
 						f = fault{Kind: "crash", At: 1 + tp.Choose(25)}
 					case 1:
@@ -199,7 +216,7 @@ func TestVerifC32(t *testing.T) {
 				case "transient":
 					pr.cl.F = simbe.Faults{ErrBefore: 50, ErrAfter: 50, PartialRead: 30, Budget: f.Budget}
 				case "slow":
-					pr.cl.F = simbe.Faults{Delay: 150, MaxDelay: 90 * time.Second, Budget: 6}
+					pr.cl.F = simbe.Faults{Delay: 150, MaxDelay: 90 * time.Second, Budget: 8}
 				}
 				// watch the destination: a snapshot saved before a later pack means the batch was split
 				snapSaved, split := false, false
